@@ -1,7 +1,7 @@
 (* runner.rs: exec() and the arms of the core note language, as an instantiation of the generic
    pos/loop_stack machine (LoopMachine.v).  The machine state is `res song`: a panic / unsupported
    construct / exhausted fuel halts it (like break_flag), so errors propagate to the result. *)
-From Sakura.Model Require Import Base Cursor Length Event Song Token LoopMachine LexCore.
+From Sakura.Model Require Import Base Cursor Length Event Song Token LoopMachine LexCore Tie.
 From Sakura.Gen Require Import Messages.
 From Coq Require Import String.
 Open Scope string_scope.
@@ -33,11 +33,13 @@ Definition emit_note (s : song) (ev : event) (notelen : Z) (is_lettered : bool) 
     if s_harmony_flag s2 then
       Ok (s_set_harmony (upd_cur s2 (fun t => tr_set_timepos t (s_harmony_time s2))) true (s_harmony_time s2)
                         (s_harmony_events s2 ++ [ev]))
-    else if (slur >=? 1) || negb (match tr_tie_notes (cur_track s2) with [] => true | _ => false end) then Unsupported U_RUN_TIE
+    else if slur >=? 1 then Ok (upd_cur s2 (fun t => push_tie_note t ev))
+    else if negb (match tr_tie_notes (cur_track s2) with [] => true | _ => false end) then
+      Ok (upd_cur s2 (fun t => check_tie_notes (s_timebase s2) (push_tie_note t ev)))
     else Ok (upd_cur s2 (fun t => tr_push_event t ev))
   else
-    if slur >=? 1 then Unsupported U_RUN_TIE
-    else Ok (upd_cur s (fun t => tr_set_timepos (tr_push_event t ev) (tr_timepos t + notelen))).
+    (* exec_note_n never looks at the '&' of a numbered note *)
+    Ok (upd_cur s (fun t => tr_set_timepos (tr_push_event t ev) (tr_timepos t + notelen))).
 
 Definition exec_note (s : song) (base flag natural : Z) (len : list ch) (qlen vel timing oct slur : Z) : res song :=
   let trk := cur_track s in
@@ -126,6 +128,30 @@ Definition exec_time_signature (s : song) (args : list Z) : song :=
   | _ => runtime_error s (zs "[TimeSignature] argument must be 2")
   end.
 
+(* str::replace: all non-overlapping occurrences, left to right (pat non-empty) *)
+Fixpoint replace_all (fuel : nat) (pat rep s : list ch) : list ch :=
+  match fuel with
+  | O => s
+  | S f =>
+      match s with
+      | [] => []
+      | c :: r => if prefixb pat s then rep ++ replace_all f pat rep (skipn (List.length pat) s)
+                  else c :: replace_all f pat rep r
+      end
+  end.
+Definition marg_to_s (a : option marg) : list ch :=
+  match a with Some (MStr t) => t | Some (MInt v) => show_int v | None => [] end.
+(* "#?1", "#?2", ... replaced one after the other *)
+Fixpoint subst_args (i : Z) (args : list (option marg)) (text : list ch) : list ch :=
+  match args with
+  | [] => text
+  | a :: r => subst_args (i + 1) r (replace_all (S (List.length text)) ([35; 63] ++ show_int i) (marg_to_s a) text)
+  end.
+
+Definition ls_of_song (s : song) : lexstate := mkLex (s_timebase s) (s_logs s) (s_vars s).
+Definition song_with_ls (s : song) (ls : lexstate) : song :=
+  s_set_vars (s_set_logs (s_set_timebase s (lx_timebase ls)) (lx_logs ls)) (lx_vars ls).
+
 Section Exec.
   (* exec() of the children of Sub / Div: supplied with one unit less of nesting fuel *)
   Variable exec_children : list tok -> res song -> res song.
@@ -178,6 +204,25 @@ Section Exec.
     | TTimeSignature args => Ok (exec_time_signature s args)
     | TMeasureShift v => Ok (s_set_time s (s_tempo s) (s_timesig_frac s) (s_timesig_deno s) v)
     | TTempo v => Ok (tempo_change s (value_range 10 v 300))
+    | TTieMode args => Ok (upd_cur s (fun t => set_tie_mode t (nth_error args 0) (nth_error args 1)))
+    | TValue name args lineno =>
+        (* a string variable / macro: its text (arguments substituted) is lexed NOW and executed as a nested exec() *)
+        let text_of (s : song) : res (list ch * song) :=
+          match vars_get name (s_vars s) with
+          | Some (VStr body _) => Ok (body, s)
+          | Some _ => Unsupported U_VAR
+          | None =>
+              match args with
+              | None => Ok ([], add_log s (zs "[WARN](" ++ show_int (s_lineno s) ++ zs ") Undefined: " ++ name))
+              | Some _ => Ok ([], s)
+              end
+          end in
+        do ts <- text_of s;
+        let '(body, s1) := ts in
+        let text := match args with Some a => subst_args 1 a body | None => body end in
+        do lx <- lex (ls_of_song s1) text lineno;
+        let '(toks, ls') := lx in
+        exec_children toks (Ok (song_with_ls s1 ls'))
     | TVAdd v => Ok (s_set_adds s v (s_q_add s))
     | TQAdd v => Ok (s_set_adds s (s_v_add s) v)
     end.
